@@ -38,7 +38,7 @@ def liftAns {α : Type} (f : α → Ans) (r : Except Err (α × Obj)) : Except E
 
 /-- one call: the answer and the object afterwards.  `copy` is `obj = Interpolation(obj)`:
     the copy constructor / assignment copy every member, search state included. -/
-def step (o : Obj) : Op → Except Err (Ans × Obj)
+def step [SqrtFn] (o : Obj) : Op → Except Err (Ans × Obj)
   | .interp x => liftAns .val (o.interpolate x)
   | .deriv x k => liftAns .val (o.derivative x k)
   | .integ a b => liftAns .val (o.integrate a b)
@@ -52,7 +52,7 @@ def step (o : Obj) : Op → Except Err (Ans × Obj)
   | .copy => .ok (.unit, o)
 
 /-- a call history; the first failing call terminates the process -/
-def run (o : Obj) : List Op → Except Err (List Ans × Obj)
+def run [SqrtFn] (o : Obj) : List Op → Except Err (List Ans × Obj)
   | [] => .ok ([], o)
   | op :: r => match step o op with
     | .error e => .error e
@@ -61,13 +61,13 @@ def run (o : Obj) : List Op → Except Err (List Ans × Obj)
       | .ok (as, o'') => .ok (a :: as, o'')
 
 /-- the object after a history -/
-def after (o : Obj) (h : List Op) : Except Err Obj :=
+def after [SqrtFn] (o : Obj) (h : List Op) : Except Err Obj :=
   match run o h with
   | .ok (_, o') => .ok o'
   | .error e => .error e
 
 /-- the answer to a single query -/
-def answer (o : Obj) (q : Op) : Except Err Ans :=
+def answer [SqrtFn] (o : Obj) (q : Op) : Except Err Ans :=
   match step o q with
   | .ok (a, _) => .ok a
   | .error e => .error e
@@ -158,7 +158,7 @@ inductive PErr where
 
 abbrev Pool := Array (Option Obj)
 
-def poolStep (tables : Array (List Rat × List Rat)) (pool : Pool) : POp → Except PErr (Ans × Pool)
+def poolStep [SqrtFn] (tables : Array (List Rat × List Rat)) (pool : Pool) : POp → Except PErr (Ans × Pool)
   | .make s t =>
     if s < pool.size then
       match tables[t]? with
